@@ -9,9 +9,9 @@ mkdir -p "$OUT"
 git -C /repo worktree add -q --detach "$WT" HEAD || exit 2
 trap 'git -C /repo worktree remove --force "$WT" >/dev/null 2>&1' EXIT
 cp "$SRC/patch.diff" "$SRC/demo.py" "$OUT/"
-PYTHONPATH=$WT/src/main/python /venv/bin/python "$SRC/demo.py" >/dev/null 2>&1; D0=$?
+PYTHONPATH=$WT/src/main/python /venv/bin/python "$SRC/demo.py" "$WT" >/dev/null 2>&1; D0=$?
 if ! git -C "$WT" apply "$SRC/patch.diff"; then echo "PATCH DOES NOT APPLY to current HEAD"; APPLY=fail; else APPLY=ok; fi
-PYTHONPATH=$WT/src/main/python /venv/bin/python "$SRC/demo.py" > "$OUT/demo_with_change.txt" 2>&1; D1=$?
+PYTHONPATH=$WT/src/main/python /venv/bin/python "$SRC/demo.py" "$WT" > "$OUT/demo_with_change.txt" 2>&1; D1=$?
 BASE=$(cd /verif && TTCONV_BASELINE_ROOT=$WT /venv/bin/python -m harness.baseline 2>&1 | head -1)
 RES=""
 for C in $PID "$@"; do
